@@ -929,6 +929,17 @@ impl<const N: usize, T> CircularBuffer<N, T> {
             (right, left)
         };
 
+        // Shrink the buffer before running the destructors: if one of them panics, the elements
+        // of the range must not be dropped a second time, nor stay reachable
+        if range.end == self.size {
+            // The range is at the back of the buffer (or is the whole buffer)
+            self.size = range.start;
+        } else {
+            // The range is at the front of the buffer
+            self.start = drop_to;
+            self.size -= range.end;
+        }
+
         let _left = Dropper(left);
         let _right = Dropper(right);
     }
@@ -1834,7 +1845,7 @@ impl<const N: usize, T> CircularBuffer<N, T> {
         // initialized. The `size` of the buffer is shrunk before dropping, so no value will be
         // dropped twice in case of panics.
         unsafe { self.drop_range(drop_range) };
-        self.size = len;
+        debug_assert_eq!(self.size, len);
     }
 
     /// Shortens the buffer, keeping only the back `len` elements and dropping the rest.
@@ -1869,8 +1880,7 @@ impl<const N: usize, T> CircularBuffer<N, T> {
         // initialized. The `start` of the buffer is shrunk before dropping, so no value will be
         // dropped twice in case of panics.
         unsafe { self.drop_range(drop_range) };
-        self.start = add_mod(self.start, drop_len, N);
-        self.size = len;
+        debug_assert_eq!(self.size, len);
     }
 
     /// Drops all the elements in the buffer.
